@@ -6,24 +6,31 @@ CHECKS=${@:-$PID}
 WT=/tmp/seed_$PID; OUT=/tmp/seed_${PID}_out; DST=/verif/seeded/$PID
 mkdir -p $DST
 cp -r $OUT/* $DST/ 2>/dev/null
-git -C $WT diff > $DST/patch.diff
+[ -d $WT ] && git -C $WT diff > $DST/patch.diff
 LOG=$DST/confirm.log; : > $LOG
-echo "== build with change" >> $LOG
-(cd $WT && cargo build --offline -q 2>&1 | grep -E "^error" | head -5) >> $LOG
 DEMO=$DST/demo.lay
-run_demo() { (cd $WT && timeout 120 cargo run --offline -q -p laythe -- $OUT/demo.lay 2>$DST/.stderr; echo "exit=$?") ; }
-if [ -f $OUT/demo.lay ]; then
+# DEMO_CMD: how to run the demonstration inside the worktree (default: the cli on demo.lay); CONFIRM=0 skips the confirmation part
+DEMO_CMD=${DEMO_CMD:-"cargo run --offline -q -p laythe -- $OUT/demo.lay"}
+run_demo() { (cd $WT && timeout 300 bash -c "$DEMO_CMD" 2>$DST/.stderr; echo "exit=$?") ; }
+if [ "${CONFIRM:-1}" = 1 ]; then
+  echo "== build with change" >> $LOG
+  (cd $WT && cargo build --offline -q 2>&1 | grep -E "^error" | head -5) >> $LOG
   run_demo > $DST/.with.out
-  git -C $WT stash -q
+  # (never `git stash` here: the stash stack is shared by all worktrees of the repository)
+  git -C $WT apply -R $DST/patch.diff
   (cd $WT && cargo build --offline -q 2>/dev/null)
   run_demo > $DST/.without.out
-  git -C $WT stash pop -q
+  git -C $WT apply $DST/patch.diff
   (cd $WT && cargo build --offline -q 2>/dev/null)
   echo "== demo with change differs from expected: $(if diff -q <(grep -v '^exit=' $DST/.with.out) $OUT/expected_stdout.txt >/dev/null 2>&1; then echo NO; else echo yes; fi)  ($(tail -1 $DST/.with.out))" >> $LOG
   echo "== demo without change equals expected: $(if diff -q <(grep -v '^exit=' $DST/.without.out) $OUT/expected_stdout.txt >/dev/null 2>&1; then echo yes; else echo NO; fi)  ($(tail -1 $DST/.without.out))" >> $LOG
-fi
 echo "== test suite with change (failures):" >> $LOG
 (cd $WT && cargo test --workspace --no-fail-fast --offline 2>&1 | grep -E "^test .* FAILED" | sort) >> $LOG
+cp $LOG $DST/confirm_part.log
+else
+  cat $DST/confirm_part.log >> $LOG 2>/dev/null
+fi
+[ "${CHECKS_RUN:-1}" = 1 ] || { cat $LOG; exit 0; }
 # run the checks against /repo with the patch applied
 if ! git -C /repo diff --quiet; then echo "/repo is dirty, refusing" >> $LOG; cat $LOG; exit 2; fi
 git -C /repo apply $DST/patch.diff || { echo "patch does not apply to /repo" >> $LOG; cat $LOG; exit 2; }
